@@ -312,6 +312,9 @@ def run(prop, tier, seed):
             if trow:
                 enum_sweep(kind, trow, srow, fields, dctx, ectx, out, tier)
             lines.append("trigrow %s %d" % (kind, srow["id"]))
+    # ---- whole-section probes: what one entry is written as does not depend on the other entries of the section,
+    # and an argument the context does not know is refused, never written as the number it happens to carry
+    section_probes(out, spec, dctx, ectx)
     # model side: the rows the theorems talk about are the rows the harness compared against
     try:
         model = run_driver(lines)
@@ -388,6 +391,83 @@ def boundary_probe(kind, row, spec_row, fields, dctx, ectx, out):
             if getattr(back, f) != rec[f]:
                 out.violations.append({"oracle": "a plain-number argument at its boundary value (%s) is written back exactly" % what, "kind": kind, "id": tid, "field": f, "got": getattr(back, f), "expected": rec[f]})
                 break
+
+
+def section_probes(out, spec, dctx, ectx):
+    import dataclasses as dc
+
+    from richchk.model.chk.trig.decoded_player_execution import DecodedPlayerExecution
+    from richchk.model.chk.trig.decoded_trig_section import DecodedTrigSection
+    from richchk.model.chk.trig.decoded_trigger import DecodedTrigger
+    from richchk.model.chk.trig.decoded_trigger_action import DecodedTriggerAction
+    from richchk.model.richchk.mrgn.rich_location import RichLocation
+    from richchk.model.richchk.trig.rich_trig_section import RichTrigSection
+    from richchk.model.richchk.trig.rich_trigger import RichTrigger
+    from richchk.model.richchk.uprp.rich_cuwp_slot import RichCuwpSlot
+    from richchk.transcoder.richchk.transcoders.richchk_trig_transcoder import RichChkTrigTranscoder
+
+    afields = spec["actionFields"]
+    ttc = RichChkTrigTranscoder()
+
+    def rec(**kw):
+        d = {f: 0 for f in afields}
+        d.update(kw)
+        return DecodedTriggerAction(**d)
+
+    def one_trigger(acts):
+        return DecodedTrigger(_conditions=[], _actions=acts, _player_execution=DecodedPlayerExecution(_execution_flags=0, _player_flags=[1] + [0] * 26, _current_action_index=0))
+
+    # (a) twin slots: two unit-property sets / two locations that are equal in every value but sit in different slots
+    cu_by, loc_by = dctx.rich_cuwp_lookup, dctx.rich_mrgn_lookup
+    c1 = cu_by.get_cuwp_by_id(1)
+    l1 = loc_by.get_location_by_id(1)
+    twin_c = dc.replace(c1, _index=63)
+    twin_l = dc.replace(l1, _index=250)
+    from richchk.model.richchk.mrgn.rich_mrgn_lookup import RichMrgnLookup
+    from richchk.model.richchk.richchk_decode_context import RichChkDecodeContext
+    from richchk.model.richchk.richchk_encode_context import RichChkEncodeContext
+    from richchk.model.richchk.uprp.rich_cuwp_lookup import RichCuwpLookup
+
+    cus = {i: (twin_c if i == 63 else cu_by.get_cuwp_by_id(i)) for i in range(1, 65)}
+    locs = {i: (twin_l if i == 250 else loc_by.get_location_by_id(i)) for i in range(1, 256)}
+    # the lookups a real load builds: id -> object for every slot, object -> id with the LAST equal object winning
+    d2 = RichChkDecodeContext(_rich_str_lookup=dctx.rich_str_lookup, _rich_swnm_lookup=dctx.rich_swnm_lookup,
+                              _rich_mrgn_lookup=RichMrgnLookup(_location_by_id_lookup=dict(locs), _id_by_location_lookup={v: k for k, v in locs.items()}),
+                              _rich_cuwp_lookup=RichCuwpLookup(_cuwp_by_id_lookup=dict(cus), _id_by_cuwp_lookup={v: k for k, v in cus.items()}))
+    e2 = RichChkEncodeContext(_rich_str_lookup=ectx.rich_str_lookup, _rich_swnm_lookup=ectx.rich_swnm_lookup, _rich_mrgn_lookup=d2.rich_mrgn_lookup,
+                              _rich_cuwp_lookup=d2.rich_cuwp_lookup, _wav_metadata_lookup=None)
+    # create unit with properties (11): group, count, unit, location, property slot; minimap ping (28): location
+    a = lambda slot, loc: rec(_action_id=11, _first_group=1, _second_group=slot, _action_argument_type=0, _quantifier_or_switch_or_order=2, _location_id=loc, _flags=4)  # noqa: E731
+    p = lambda loc: rec(_action_id=28, _location_id=loc, _flags=4)  # noqa: E731
+    sec = DecodedTrigSection(_triggers=[one_trigger([a(1, 1), a(63, 1), p(1), p(250)]), one_trigger([a(63, 250)]), one_trigger([a(1, 250), p(250), p(1)])])
+    out.case("section-twins", b"twins")
+    try:
+        back = ttc.encode(ttc.decode(sec, d2), e2)
+        for ti, (t0, t1) in enumerate(zip(sec.triggers, back.triggers)):
+            for ai, a0 in enumerate(t0.actions):
+                a1 = t1.actions[ai]
+                for f in afields:
+                    if getattr(a0, f) != getattr(a1, f):
+                        out.violations.append({"oracle": "an entry is written with its own arguments, whatever equal-looking entries the section also holds (twin slots)",
+                                               "trigger": ti, "action": ai, "field": f, "read": getattr(a0, f), "written": getattr(a1, f)})
+                        raise StopIteration
+    except StopIteration:
+        pass
+    except Exception as ex:  # noqa: BLE001
+        out.violations.append({"oracle": "a section whose entries refer to twin slots decodes and encodes", "err": "%s: %s" % (type(ex).__name__, str(ex)[:120])})
+    # (b) an argument object the encode context does not hold (it carries a number some OTHER object has): refused
+    from richchk.model.richchk.trig.actions.minimap_ping_action import MinimapPingAction
+    from richchk.model.richchk.trig.player_id import PlayerId
+
+    foreign = dc.replace(l1, _left_x1=l1.left_x1 + 4096, _index=5)      # not location 5 of the context
+    trig = RichTrigger(_conditions=[], _actions=[MinimapPingAction(_location=foreign)], _players={PlayerId.PLAYER_1})
+    out.case("section-foreign-location", b"foreign")
+    try:
+        back = ttc.encode(RichTrigSection(_triggers=[trig]), ectx)
+        got = back.triggers[0].actions[0].location_id
+        out.violations.append({"oracle": "a location the map does not hold is refused, never written as the number it carries", "carried": 5, "written": got})
+    except Exception:  # noqa: BLE001
+        pass
 
 
 def enum_sweep(kind, row, srow, fields, dctx, ectx, out, tier):
